@@ -31,7 +31,9 @@ pub fn parse_ignore(source: &Path, config: &Config) -> Result<Option<Gitignore>>
         // Only a regular file is read; opening e.g. a FIFO of that
         // name would block for ever.
         if gifile.is_file() {
-            builder.add(&gifile);
+            if let Some(err) = builder.add(&gifile) {
+                return Err(err.into());
+            }
         }
         let ignore = builder.build()?;
         Some(ignore)
